@@ -334,8 +334,8 @@ func shard(o *opts) {
 	go func() {
 		for {
 			time.Sleep(5 * time.Second)
-			if st := curStart.Load(); st != 0 && time.Now().Unix()-st > 300 {
-				fmt.Fprintf(os.Stderr, "worker: WATCHDOG: %s case %d has been running for more than 300 s; giving up (exit 2)\n", o.prop, curCase.Load())
+			if st := curStart.Load(); st != 0 && time.Now().Unix()-st > 900 {
+				fmt.Fprintf(os.Stderr, "worker: WATCHDOG: %s case %d has been running for more than 900 s; giving up (exit 2)\n", o.prop, curCase.Load())
 				buf := make([]byte, 1<<16)
 				n := runtime.Stack(buf, true)
 				os.Stderr.Write(buf[:n])
